@@ -232,10 +232,10 @@ def check_run(ctx, res, sel, setup, max_servers, fail_key, rid, stats, desc):
     stats["permutations_selected"] = stats.get("permutations_selected", 0) + len(sel)
 
 
-def server_leaves_run(ctx, bins, peer, rid, exit_code, die_ms, stats):
+def server_leaves_run(ctx, bins, peer, rid, exit_code, die_ms, stats, known_failing=False, prefix="c05"):
     """A server instance that ends on its own (exit status exit_code) in the middle of a large batch: what the
     runner hands to the client afterwards is bounded by what the pipe could already hold, the rest is reported."""
-    d = os.path.join(ctx.W, "c05-leave-%d" % rid)
+    d = os.path.join(ctx.W, "%s-leave-%d" % (prefix.replace("/", "-"), rid))
     os.makedirs(d, exist_ok=True)
     confp = os.path.join(d, "conf.yaml")
     open(confp, "w").write(CONFIG_D)
@@ -253,20 +253,22 @@ def server_leaves_run(ctx, bins, peer, rid, exit_code, die_ms, stats):
     args = ["-v", "--conf", confp, "--mode", "both", "--max-servers", "1"]
     for r in run:
         args += ["--run", r]
+    if known_failing:
+        args += ["--known-failing", "**"]  # every case is expected to fail: only cases that could not be run count against success
     args += ["--", peer, "client", "----", peer, "server"]
     env = {"VERIF_EVENTLOG": evp, "VERIF_PEER_SCRIPT": json.dumps(script)}
-    rc, to, text = e2e.run_runner(ctx, bins, args, "c05-leave-%d" % rid, timeout=600, env=env, race_label="c05-leave-%d" % rid)
+    rc, to, text = e2e.run_runner(ctx, bins, args, "%s-leave-%d" % (prefix.replace("/", "-"), rid), timeout=600, env=env, race_label="%s-leave-%d" % (prefix.replace("/", "-"), rid))
     evs = load_events(evp)
     out = e2e.parse_output(text)
     w = {"scenario": "server instance %s exits with status %d, %d ms after it was ready, batch of %d permutations" % (key, exit_code, die_ms, len(by_key[key])),
          "argv": " ".join(args), "script": script, "exit": rc, "output_tail": text[-1200:]}
     if to:
-        ctx.add_violation("c05/not-terminating/server-leaves", "the run did not terminate within the progress bound", w)
+        ctx.add_violation(prefix + "/not-terminating/server-leaves", "the run did not terminate within the progress bound", w)
         return
     death = [e for e in evs if e["ev"] == "server_exit" and e.get("why") == "scripted death" and e.get("key") == key]
     pipe = max([e.get("stdin_pipe_bytes", 0) for e in evs if e["ev"] == "client_start"] + [0])
     if not death or pipe <= 0:
-        ctx.inconclusive.append("c05 server-leaves: the scripted death was not observed (%d death events, pipe %d)" % (len(death), pipe))
+        ctx.inconclusive.append(prefix + " server-leaves: the scripted death was not observed (%d death events, pipe %d)" % (len(death), pipe))
         return
     t_x = min(e["t"] for e in death)
     names = set(by_key[key])
@@ -283,11 +285,11 @@ def server_leaves_run(ctx, bins, peer, rid, exit_code, die_ms, stats):
     w.update({"handed_before_exit": len(before), "handed_after_exit": len(after), "bytes_after_exit": bytes_after, "allowed_bytes": allowed, "pipe_capacity": pipe, "batch": len(names)})
     stats.setdefault("server_leaves", []).append({k: w[k] for k in ("scenario", "handed_before_exit", "handed_after_exit", "bytes_after_exit", "allowed_bytes", "batch")})
     if remaining_bytes_if_all_sent < 2 * allowed:
-        ctx.inconclusive.append("c05 server-leaves: the batch was too small to tell (remaining %.0f bytes, allowance %d)" % (remaining_bytes_if_all_sent, allowed))
+        ctx.inconclusive.append(prefix + " server-leaves: the batch was too small to tell (remaining %.0f bytes, allowance %d)" % (remaining_bytes_if_all_sent, allowed))
         return
     stats["server_leaves_decided"] = stats.get("server_leaves_decided", 0) + 1
     if bytes_after > allowed:
-        ctx.add_violation("c05/handed-over-after-server-exit/status-%d" % exit_code,
+        ctx.add_violation(prefix + "/handed-over-after-server-exit/status-%d" % exit_code,
                           "%d permutations (%d bytes) of the batch were handed to the client after their server had exited with status %d; at most %d bytes could have been in the pipe already" % (len(after), bytes_after, exit_code, allowed), w)
     # exactly once or reported
     seen = {}
@@ -296,13 +298,13 @@ def server_leaves_run(ctx, bins, peer, rid, exit_code, die_ms, stats):
     for n in sorted(names):
         c = seen.get(n, 0)
         if c > 1:
-            ctx.add_violation("c05/duplicate/both/server-leaves", "permutation %r was handed out %d times" % (n, c), w)
+            ctx.add_violation(prefix + "/duplicate/both/server-leaves", "permutation %r was handed out %d times" % (n, c), w)
             break
         if c == 0 and n not in out["failed"]:
-            ctx.add_violation("c05/not-run-not-reported/server-leaves", "permutation %r was neither handed to the client nor reported as failed after its server left" % n, w)
+            ctx.add_violation(prefix + "/not-run-not-reported/server-leaves", "permutation %r was neither handed to the client nor reported as failed after its server left" % n, w)
             break
     if rc == 0:
-        ctx.add_violation("c05/run-succeeds-although-server-left", "the run exits 0 although server %s left in the middle of its batch" % key, w)
+        ctx.add_violation(prefix + "/run-succeeds-although-server-left/status-%d%s" % (exit_code, "/all-known-failing" if known_failing else ""), "the run exits 0 although server %s left in the middle of its batch (%d of its %d permutations were never handed to a client)" % (key, len(names) - len(seen), len(names)), w)
 
 
 def run(ctx, bins, peer, tier):
